@@ -8,7 +8,8 @@
     JSON variable value are two spellings of it ([abs_lit], [abs_json]).  The only places where
     the transport matters are the ones the specification names: enums (a Name literal in a
     document; "for transports that have no symbolic value, a string" in variables) and numbers
-    (JSON has one number type: a number with an integral value is an integer input value).
+    (JSON has one number type: a number with an integral value is an integer input value,
+    [as_integer]).
 
     [RefCoerce T v] is [ref_coerce tr v T true].  [conforms g T] is "g is a value of type T".
     No proofs in this file. *)
@@ -118,7 +119,7 @@ Section Spec.
     match j with
     | JNull => INull
     | JBool b => IBool b
-    | JNum d => match f64_to_Z d with Some z => IInt z | None => IFloat d end
+    | JNum d => IFloat d
     | JInt z => IInt z
     | JStr s => IString s
     | JList l => IList (map abs_json l)
@@ -129,24 +130,47 @@ Section Spec.
   Definition within (lo hi z : Z) : bool := Z.leb lo z && Z.leb z hi.
   Definition tok : name := [84; 111; 107]%N.
 
+  (** an integer input value: an IntValue in a document; in JSON variables, where there is a
+      single number type, any number whose value is integral (1 and 1.0 are the same value once
+      decoded) *)
+  Definition as_integer (tr : transport) (v : ival) : option Z :=
+    match v with
+    | IInt z => Some z
+    | IFloat d => match tr with TJson => f64_to_Z d | TLiteral => None end
+    | _ => None
+    end.
+
   (** 3.5: scalars.  Int: integers in [-2^31, 2^31).  Float: integer and float input values
       (an integer becomes the nearest binary64; outside IEEE 754 range is an error).  String,
       Boolean: only themselves.  ID: any string or integer (here: an integer a Go int holds).
       DateTime (api-fu): an RFC 3339 string.  LongInt (api-fu): integers in the JavaScript-safe
       range.  The harness' custom scalar: any string. *)
-  Definition ref_scalar (k : scalar_kind) (v : ival) : option gval :=
-    match k, v with
-    | KInt, IInt z => if within (- 2 ^ 31) (2 ^ 31 - 1) z then Some (GInt z) else None
-    | KFloat, IInt z => option_map GFloat (f64_of_Q z 1)
-    | KFloat, IFloat d => Some (GFloat d)
-    | KString, IString s => Some (GString s)
-    | KBoolean, IBool b => Some (GBool b)
-    | KID, IInt z => if within (- 2 ^ 63) (2 ^ 63 - 1) z then Some (GInt z) else None
-    | KID, IString s => Some (GString s)
-    | KDateTime, IString s => option_map GTime (dt s)
-    | KLongInt, IInt z => if within (- (2 ^ 53 - 1)) (2 ^ 53 - 1) z then Some (GInt64 z) else None
-    | KCustom, IString s => Some (GTagged tok (GString s))
-    | _, _ => None
+  Definition ref_scalar (tr : transport) (k : scalar_kind) (v : ival) : option gval :=
+    match k with
+    | KInt => match as_integer tr v with
+              | Some z => if within (- 2 ^ 31) (2 ^ 31 - 1) z then Some (GInt z) else None
+              | None => None
+              end
+    | KFloat => match v with
+                | IInt z => option_map GFloat (f64_of_Q z 1)
+                | IFloat d => Some (GFloat d)
+                | _ => None
+                end
+    | KString => match v with IString s => Some (GString s) | _ => None end
+    | KBoolean => match v with IBool b => Some (GBool b) | _ => None end
+    | KID => match v with
+             | IString s => Some (GString s)
+             | _ => match as_integer tr v with
+                    | Some z => if within (- 2 ^ 63) (2 ^ 63 - 1) z then Some (GInt z) else None
+                    | None => None
+                    end
+             end
+    | KDateTime => match v with IString s => option_map GTime (dt s) | _ => None end
+    | KLongInt => match as_integer tr v with
+                  | Some z => if within (- (2 ^ 53 - 1)) (2 ^ 53 - 1) z then Some (GInt64 z) else None
+                  | None => None
+                  end
+    | KCustom => match v with IString s => Some (GTagged tok (GString s)) | _ => None end
     end.
 
   Definition is_absent (v : ival) : bool := match v with IVarAbsent => true | _ => false end.
@@ -181,7 +205,7 @@ Section Spec.
               end
           | StNamed n =>
               match aget n E with
-              | Some (TScalar k) => ref_scalar k v
+              | Some (TScalar k) => ref_scalar tr k v
               | Some (TEnum vals) =>
                   match tr, v with
                   | TLiteral, IEnum x => aget x vals
